@@ -45,7 +45,8 @@ def items(tier, seed):
     fam = _family(tier, seed)
     for i, sh in enumerate(fam):
         out.append(("layout", i, sh["tag"]))
-        out.append(("overrides", i, sh["tag"]))
+        out.append(("overrides", i, sh["tag"], 0))
+        out.append(("overrides", i, sh["tag"], 1))
         out.append(("workspace", i, sh["tag"]))
         out.append(("perm", i, sh["tag"]))
     out.append(("wronglen", 0))
@@ -65,7 +66,7 @@ def _param_sizes(spec):
     return out
 
 
-def _with_overrides(shape):
+def _with_overrides(shape, variant=0):
     """shape with a measurement-level parameter entry for every parameter (symbolic placeholders)"""
     sh = copy.deepcopy(shape)
     spec = sh["spec"]
@@ -76,8 +77,8 @@ def _with_overrides(shape):
         p = dict(existing.get(name, {"name": name}))
         p["inits"] = ["$x"] * n
         p["bounds"] = [["$x", "$x"] for _ in range(n)]
-        if "shapesys" not in ts and "staterror" not in ts:   # bin-wise fixed flags are data-derived lists there
-            p["fixed"] = bool(k % 2)
+        # an explicit flag (either value) must win over the data-derived per-bin flags of shapesys / staterror too
+        p["fixed"] = bool((k + variant) % 2)
         if ts & {"histosys", "normsys"}:
             p["auxdata"] = ["$x"]
         elif "staterror" in ts:
@@ -141,7 +142,10 @@ def harness_for(item):
         sh = _family(env.tier, env.seed)[idx]
         assert sh["tag"] == item[2]
         env.install_backend()
-        {"layout": _layout, "overrides": _overrides, "workspace": _workspace, "perm": _perm}[kind](env, sh)
+        if kind == "overrides":
+            _overrides(env, sh, item[3])
+        else:
+            {"layout": _layout, "workspace": _workspace, "perm": _perm}[kind](env, sh)
     return h
 
 
@@ -217,8 +221,8 @@ def _layout(env, sh):
             env.eq(f"default-hi[{name},{i}]", bounds[sl][i][1], d_bounds[1], key="defaults:bounds")
 
 
-def _overrides(env, sh):
-    sho = _with_overrides(sh)
+def _overrides(env, sh, variant=0):
+    sho = _with_overrides(sh, variant)
     tb = env.backend
     spec, model, _, _ = common.build_model(env, sho, prefix="ov_")
     cfg = model.config
